@@ -1,6 +1,7 @@
 package main
 
 import (
+	"fmt"
 	"math/big"
 	"strings"
 )
@@ -173,10 +174,18 @@ func init() {
 			setBig(it, a[0], t.args[0])
 			return Tuple{a[0], TTrue}
 		}
-		if !it.p.branch(App("isbigstr", SBool, t)) {
+		// whether a text is a number, and which, depends on the base (base 0 accepts 0x.., 0b.., 0o.. and '_' separators and
+		// reads a leading 0 as octal): one uninterpreted pair per base, unrelated to each other (over-approximation)
+		suffix := ""
+		if !base.IsConst() {
+			it.fail("big.Int.SetString with a symbolic base")
+		} else if b := base.val.Int64(); b != 10 {
+			suffix = fmt.Sprintf("!base%d", b)
+		}
+		if !it.p.branch(App("isbigstr"+suffix, SBool, t)) {
 			return Tuple{Ptr(nil), TFalse}
 		}
-		v := App("bigparse", SInt, t)
+		v := App("bigparse"+suffix, SInt, t)
 		setBig(it, a[0], v)
 		return Tuple{a[0], TTrue}
 	})
@@ -243,6 +252,9 @@ func init() {
 		"ValidateDenom", "mustValidateDenom", "add", "sub", "mul", "div", "quo", "mod", "neg", "abs", "equal", "gt", "gte", "lt", "lte", "min", "max", "cmp", "NewIntWithDecimal", "MinInt", "MaxInt"} {
 		execThrough[sdkT+"."+f] = true
 	}
+	// bank metadata validation (plain string code on top of ValidateDenom and TrimSpace)
+	execThrough["(github.com/cosmos/cosmos-sdk/x/bank/types.Metadata).Validate"] = true
+	execThrough["(github.com/cosmos/cosmos-sdk/x/bank/types.DenomUnit).Validate"] = true
 	// range-end helpers of the store (plain byte-slice code)
 	for _, f := range []string{sdkT + ".PrefixEndBytes", sdkT + ".InclusiveEndBytes", "github.com/cosmos/cosmos-sdk/store/types.PrefixEndBytes", "github.com/cosmos/cosmos-sdk/store/types.InclusiveEndBytes"} {
 		execThrough[f] = true
